@@ -249,6 +249,9 @@ func NewMatchField[Int constraints.Integer | *big.Int | ~[]byte, Mask constraint
 		}
 		field.Mask = big2byte(maskInt, length)
 	}
+	if value.BitLen() > int(length)*8 {
+		return nil, fmt.Errorf("data exceeds the %d-byte field", length)
+	}
 	field.Value = big2byte(value, length)
 	return field, nil
 }
